@@ -172,7 +172,8 @@ Definition eq_spec_step (op : eq_op) (st : option fifo) (refused : bool) : eq_ou
     if refused then (YRc false, st) else (YRc true, Some (rl, l ++ [firstn (N.to_nat rl) rec]))
   | QDelete, Some (rl, l) => (YUnit, Some (rl, tl l))
   | QGetlen, Some (rl, l) => (YSize (N.of_nat (length l)), st)
-  | QGet pos, Some (rl, l) => (YRec (nth_error l (N.to_nat pos)), st)
+  | QGet pos, Some (rl, l) =>
+    (YRec (if pos <? N.of_nat (length l) then nth_error l (N.to_nat pos) else None), st)
   | QSet pos rec, Some (rl, l) =>
     (YUnit, if pos <? N.of_nat (length l) then Some (rl, set_nth l (N.to_nat pos) rec) else st)
   | QFree, Some _ => (YUnit, None)
